@@ -18,6 +18,7 @@ from pysx.values import SymInt, PREC
 M31 = 1 << 31
 RMAX = 1 << 31
 TMAX_DIST = 1 << 20
+TMAX_DIST_THOROUGH = 1 << 22
 TMAX_RATE = 1 << 32
 
 
@@ -73,8 +74,8 @@ def zclear(rate, accel, jerk):
 class Check(CheckBase):
     pid = "C02"
     title = "T3 move prediction = third-order recurrence"
-    bounds = {"rate/accel/jerk": "|.| <= 2^31", "T (move_dist_t3)": "1 <= T <= 2^20 symbolic (42 s of motion): at 103 bits the "
-              "accumulated mp rounding error stays far below the 1/2 that round() tolerates",
+    bounds = {"rate/accel/jerk": "|.| <= 2^31", "T (move_dist_t3)": "1 <= T <= 2^20 (quick) / 2^22 (thorough) symbolic (42 / 168 s of motion): at 103 bits the "
+              "accumulated mp rounding error stays below the 1/12 that round() tolerates here (the margin is gone near T = 2^24)",
               "T (rate_t3)": "1 <= T <= 2^32 symbolic, under |jerk|*T^2 < 2^40 and |accel|*T < 2^40 (binary64 exactness of every intermediate is then proved by the solver)",
               "accum": "0 <= accum < 2^31, or 'clear'", "ambient precision": "any mantissa size >= 4 bits"}
     outside = ["T > 2^20 for move_dist_t3", "rate_t3 outside |jerk|*T^2 < 2^40, |accel|*T < 2^40: there binary64 rounding makes rate_t3 differ from the recurrence, e.g. "
@@ -95,11 +96,12 @@ class Check(CheckBase):
 
     def cases(self, tier):
         cs = [{"label": "lemma"}]
+        tmax = TMAX_DIST if tier == "quick" else TMAX_DIST_THOROUGH
         for mode in ("given", "clear", "default"):
-            cs.append({"label": "move_dist_t3/" + mode, "fn": "move_dist_t3", "mode": mode})
+            cs.append({"label": "move_dist_t3/" + mode, "fn": "move_dist_t3", "mode": mode, "tmax": tmax})
         cs.append({"label": "rate_t3", "fn": "rate_t3", "mode": None})
         for mode in ("given", "clear"):
-            cs.append({"label": "zero-jerk/" + mode, "fn": "zero-jerk", "mode": mode})
+            cs.append({"label": "zero-jerk/" + mode, "fn": "zero-jerk", "mode": mode, "tmax": tmax})
         return cs
 
     def config(self, tier, case):
@@ -144,7 +146,7 @@ class Check(CheckBase):
             calc.precision_obligations(run, tag)
             return
         mode = case["mode"]
-        T = run.int("T", 1, TMAX_DIST)
+        T = run.int("T", 1, case.get("tmax", TMAX_DIST))
         if mode == "given":
             accum = run.int("accum", 0, M31 - 1)
             acc0 = accum.t
